@@ -412,6 +412,20 @@ fn gen_tree(rng: &mut Rng, root: &Path, allow_big: bool) -> BTreeMap<String, Vec
         std::fs::write(root.join(&rel), &data).unwrap();
         files.insert(rel, data);
     }
+    // one tree in three has SIBLINGS whose names begin with the directory's name (tree.bak/, tree2/, a file tree-old):
+    // other inputs, given to `create` next to the directory
+    if rng.chance(1, 3) {
+        for (rel, n) in [("tree.bak/s0.txt", 300usize), ("tree2/inner/s1", 5000), ("tree-old", 77)] {
+            if rng.chance(2, 3) {
+                let data = Data::Text { n, seed: rng.u64() }.bytes();
+                if let Some(parent) = std::path::Path::new(rel).parent() {
+                    std::fs::create_dir_all(root.join(parent)).unwrap();
+                }
+                std::fs::write(root.join(rel), &data).unwrap();
+                files.insert(rel.to_string(), data);
+            }
+        }
+    }
     // one tree in three also holds symbolic links to some of its regular files (what `create` stores for such a
     // path is the file behind the link, under the link's own path)
     if rng.chance(1, 3) {
@@ -431,7 +445,7 @@ fn gen_tree(rng: &mut Rng, root: &Path, allow_big: bool) -> BTreeMap<String, Vec
         // ... and, half of the time, a link to one of its sub-directories: `create` walks into it, so every file
         // below the target is also stored under the link's path
         if rng.chance(1, 2) {
-            let dirs: std::collections::BTreeSet<String> = files.keys().filter_map(|k| std::path::Path::new(k).parent().map(|p| p.to_string_lossy().to_string())).filter(|d| d != "tree").collect();
+            let dirs: std::collections::BTreeSet<String> = files.keys().filter_map(|k| std::path::Path::new(k).parent().map(|p| p.to_string_lossy().to_string())).filter(|d| d.starts_with("tree/")).collect();
             if let Some(d) = dirs.iter().next().cloned() {
                 let link = "tree/dir link".to_string();
                 if std::os::unix::fs::symlink(root.join(&d), root.join(&link)).is_ok() {
@@ -455,7 +469,7 @@ impl Prop for C17 {
         "exploration"
     }
     fn rule(&self) -> String {
-        "run = a seeded file tree (empty files, nested directories, unicode and spaces in names, sizes around 128 KiB and 4 MiB, at the unit boundaries 511..513, 1023..1025, 2^20-1..2^20+1, multiples of 512, now and then 9..17 MiB; names of 100 / 101 / 155 / 201 / 254 bytes without a separator and names with glob metacharacters; one tree in twelve with 70..150 tiny files; one tree in three with symbolic links to some of its files - stored as the file behind the link - and half of those with a link to one of its sub-directories, walked like a directory) in a private scratch directory, X25519 key files written in PEM, and a command pipeline of the `mlar` binary built from the working tree: create (seeded layers/level/1..3 recipients; paths given as files, as a directory, or through stdin) then list, list -vv, cat of each file, whole extract, extract of one name, to-tar, and a seeded chain of repair / convert steps to other layer and key choices, re-checked after each step. Model = the file tree: the listing is exactly the given paths; every route returns each file's exact bytes; list -vv shows the true SHA-256 and a size string consistent with the true size; tar entries have the right names, sizes and contents. Key faults: wrong key, missing key for an encrypted archive, key given for an unencrypted archive: the command exits non-zero and leaves no output content (file absent or empty). distinct_nontrivial = distinct (layers, level bucket, recipients, create form, chain of steps, key fault, outcome) signatures.".into()
+        "run = a seeded file tree (empty files, nested directories, unicode and spaces in names, sizes around 128 KiB and 4 MiB, at the unit boundaries 511..513, 1023..1025, 2^20-1..2^20+1, multiples of 512, now and then 9..17 MiB; names of 100 / 101 / 155 / 201 / 254 bytes without a separator and names with glob metacharacters; one tree in twelve with 70..150 tiny files; one tree in three with siblings named like the directory (tree.bak/, tree2/, tree-old) given to create next to it; one tree in three with symbolic links to some of its files - stored as the file behind the link - and half of those with a link to one of its sub-directories, walked like a directory) in a private scratch directory, X25519 key files written in PEM, and a command pipeline of the `mlar` binary built from the working tree: create (seeded layers/level/1..3 recipients; paths given as files, as a directory, or through stdin) then list, list -vv, cat of each file, whole extract, extract of one name, to-tar, and a seeded chain of repair / convert steps to other layer and key choices, re-checked after each step. Model = the file tree: the listing is exactly the given paths; every route returns each file's exact bytes; list -vv shows the true SHA-256 and a size string consistent with the true size; tar entries have the right names, sizes and contents. Key faults: wrong key, missing key for an encrypted archive, key given for an unencrypted archive: the command exits non-zero and leaves no output content (file absent or empty). distinct_nontrivial = distinct (layers, level bucket, recipients, create form, chain of steps, key fault, outcome) signatures.".into()
     }
     fn assumptions(&self) -> Vec<String> {
         vec![
@@ -536,7 +550,14 @@ impl Prop for C17 {
         let mut stdin: Option<Vec<u8>> = None;
         match form {
             0 => args.extend(files.keys().cloned()),
-            1 => args.push(s("tree")),
+            1 => {
+                // the top-level entries: the directory first, then its siblings (directories or files)
+                args.push(s("tree"));
+                let mut tops: Vec<String> = files.keys().map(|k| k.split('/').next().unwrap_or("").to_string()).filter(|t| t != "tree").collect();
+                tops.sort();
+                tops.dedup();
+                args.extend(tops);
+            }
             _ => {
                 args.push(s("-"));
                 stdin = Some(files.keys().map(|k| format!("{k}\n")).collect::<String>().into_bytes());
